@@ -27,13 +27,13 @@ theorem C05_inv_init (cfg : Cfg σ) (arch : Disk → List Bytes) (hc : RollContr
   Inv.atInit cfg arch hc.frame d t0 now
 
 /-- every operation — append of any record with any trigger answer and any roller outcome
-(success, or failure at any step), restart, clock tick — preserves the invariant. In truncate mode
-the roller must not fail (otherwise the next reopen truncates acknowledged data: see
-`C05_truncate_reopen_after_failed_roll_loses`). -/
+(success, or failure at any step), restart, clock tick — preserves the invariant, in append and in
+truncate mode (since the `fix:` commit b8295bc a reopen after a failed roll no longer truncates:
+see `C05_truncate_reopen_after_failed_roll_keeps`). -/
 theorem C05_inv_step (cfg : Cfg σ) (arch : Disk → List Bytes) (hc : RollContract cfg.roll cfg.path arch)
-    (hmode : cfg.appendMode = true ∨ NoFail cfg.roll cfg.path) (s : St σ) (g : Ghost) (inv : Inv cfg arch s g) (op : Op) :
+    (s : St σ) (g : Ghost) (inv : Inv cfg arch s g) (op : Op) :
     Inv cfg arch (applyOp cfg s op).2 (ghostStep cfg g op (applyOp cfg s op).1) :=
-  inv.step hc hmode op
+  inv.step hc op
 
 /-- restart in append mode keeps everything; in truncate mode it discards the active segment — at
 open, and only that: the archives are untouched and the file is empty -/
@@ -45,18 +45,18 @@ theorem C05_restart (cfg : Cfg σ) (arch : Disk → List Bytes) (hc : RollContra
   exact ⟨hc.frame _ _ hse, fileOf_opened ho⟩
 
 /-- Main theorem. After any history (appends of any records with any fault, restarts, clock
-ticks; any trigger; any roller satisfying the contract; append mode, or truncate mode with a
-roller that does not fail), the files on disk — retained archives oldest to newest, then the active
+ticks; any trigger; any roller satisfying the contract; append mode or truncate mode), the files
+on disk — retained archives oldest to newest, then the active
 file — are exactly a suffix, by whole files, of the segmented stream: nothing missing from the
 middle, nothing duplicated, nothing reordered, no record split across files. -/
 theorem C05_no_loss_no_dup_order (cfg : Cfg σ) (arch : Disk → List Bytes)
-    (hc : RollContract cfg.roll cfg.path arch) (hmode : cfg.appendMode = true ∨ NoFail cfg.roll cfg.path)
+    (hc : RollContract cfg.roll cfg.path arch)
     (d : Disk) (t0 : σ) (now : Nat) (ops : List Op) :
     let res := grun cfg (init cfg d t0 now) (Ghost.init cfg arch d) ops
     ∃ k, k ≤ res.2.2.closed.length ∧
       retained cfg arch res.2.1.disk = ((res.2.2.closed ++ [res.2.2.cur]).drop k).map List.flatten := by
   intro res
-  have inv : Inv cfg arch res.2.1 res.2.2 := (C05_inv_init cfg arch hc d t0 now).history hc hmode ops
+  have inv : Inv cfg arch res.2.1 res.2.2 := (C05_inv_init cfg arch hc d t0 now).history hc ops
   obtain ⟨k, hk⟩ := inv.archives
   refine ⟨min k res.2.2.closed.length, Nat.min_le_right _ _, ?_⟩
   have hdrop : res.2.2.closed.drop k = res.2.2.closed.drop (min k res.2.2.closed.length) := by
@@ -94,7 +94,7 @@ theorem C05_initial_stream (cfg : Cfg σ) (arch : Disk → List Bytes) (d : Disk
 theorem C05_pre_wrote_iff_ok (cfg : Cfg σ) (s : St σ) (r : Rec) (fault : Nat → Bool) (hwf : WF cfg s)
     (hpre : cfg.trig.pre = true) :
     wrote true (append cfg s r fault).1 = true ↔ (append cfg s r fault).1.res = .ok := by
-  obtain ⟨_, _, _, hno, herr, hyes⟩ := append_pre_spec cfg s r fault hwf hpre _ _
+  obtain ⟨_, _, _, _, hno, herr, hyes⟩ := append_pre_spec cfg s r fault hwf hpre _ _
     (append cfg s r fault).1 (append cfg s r fault).2 rfl rfl rfl
   cases hans : (cfg.trig.fire s.tst (openView cfg s).length s.now).1 with
   | no => obtain ⟨hr, hro, _⟩ := hno hans; simp [wrote, hr, hro]
@@ -159,32 +159,27 @@ theorem C05_schedule_serial_rolling (cfg : Cfg σ) (s0 : St σ) (progs : List (L
     obtain ⟨hl, p, hp1, hp2⟩ := inv.threads i t ht
     exact ⟨hl, p, hp1, ⟨t.todo, hp2⟩⟩
 
-/-! ### the truncate-mode gap (F10), kept visible
+/-! ### truncate mode after a failed roll (the former defect F10)
 
-The statement without the mode hypothesis is false of the code: in truncate mode, after a roll
-that failed, the next append reopens the still existing file with `truncate(true)` and destroys
-acknowledged records. -/
+Before the `fix:` commit b8295bc the next append after a failed roll reopened the still existing
+file with `truncate(true)` and destroyed acknowledged records; the model mirrored that and the
+theorems above needed the hypothesis "append mode, or the roller never fails". The code now
+truncates at the appender's first open only, the model follows (`St.opened`), the hypothesis is
+gone, and the former counter-example is a regression witness. -/
 
 private def wPath : Path := ['a']
 private def wRoller : RollerCfg := { nameOf := fun i => 'b' :: List.replicate i 'x', base := 0, count := 1 }
 private def wCfg : Cfg (List TrigAns) :=
   { path := wPath, appendMode := false, trig := scriptedTrigger false, roll := fixedWindowRoll wRoller }
 
-/-- witness: `[1]` is acknowledged, the roll requested after `[2]` fails at its only step, the next
-append truncates: afterwards neither the active file nor the archive holds `[1]` -/
-theorem C05_truncate_reopen_after_failed_roll_loses :
-    let res := run wCfg (init wCfg Disk.empty [.no, .yes, .no] 0)
+/-- witness (test on a sample): `[1]` is acknowledged, the roll requested after `[2]` fails at its
+only step, the next append reopens the file — and everything is still there -/
+theorem C05_truncate_reopen_after_failed_roll_keeps :
+    let res := run wCfg (init wCfg (Disk.empty.set wPath [9]) [.no, .yes, .no] 0)
       [.append [[1]] none, .append [[2]] (some 0), .append [[3]] none]
     res.1.map (fun o => o.map (·.res)) = [some .ok, some .errRoll, some .ok] ∧
-    res.2.disk.get? wPath = some [3] ∧ res.2.disk.get? (wRoller.nameOf 0) = none := by
+    res.2.disk.get? wPath = some [1, 2, 3] ∧ res.2.disk.get? (wRoller.nameOf 0) = none := by
   decide +kernel
-
-/-- the full statement (no restriction on the mode) … -/
-def C05_no_loss_any_mode_statement : Prop :=
-  ∀ (cfg : Cfg (List TrigAns)) (arch : Disk → List Bytes), RollContract cfg.roll cfg.path arch →
-    ∀ (d : Disk) (t0 : List TrigAns) (now : Nat) (ops : List Op),
-      let res := grun cfg (init cfg d t0 now) (Ghost.init cfg arch d) ops
-      ∃ k, retained cfg arch res.2.1.disk = ((res.2.2.closed ++ [res.2.2.cur]).drop k).map List.flatten
 
 /-! ### non-vacuity (tests on samples) -/
 
